@@ -1,10 +1,12 @@
 package logging
 
 import (
+	"bufio"
 	"context"
 	"crypto/rand"
 	"encoding/hex"
 	"fmt"
+	"net"
 	"net/http"
 	"strings"
 	"time"
@@ -27,9 +29,69 @@ func RequestContextMiddleware(cfg config.LoggingConfig) func(http.Handler) http.
 			logger := enrichLogger(ctx, requestID, traceID)
 
 			ctx = contextWithLogger(ctx, logger, requestID, traceID)
+			if requestID != "" || traceID != "" {
+				w = &idHeaderWriter{ResponseWriter: w, names: [2]string{requestHeader, traceHeader}, values: [2]string{requestID, traceID}}
+			}
 			next.ServeHTTP(w, r.WithContext(ctx))
 		})
 	}
+}
+
+// idHeaderWriter makes sure the final response carries the identifiers: they are set on the
+// header map before the chain runs, but httputil.ReverseProxy clears that map after it has
+// forwarded a 1xx interim response (103 Early Hints), so they are put back, when missing, at
+// the moment the final header is written.
+type idHeaderWriter struct {
+	http.ResponseWriter
+	names  [2]string
+	values [2]string
+	done   bool
+}
+
+func (w *idHeaderWriter) ensure() {
+	if w.done {
+		return
+	}
+	w.done = true
+	for i, name := range w.names {
+		if w.values[i] != "" && w.Header().Get(name) == "" {
+			w.Header().Set(name, w.values[i])
+		}
+	}
+}
+
+func (w *idHeaderWriter) WriteHeader(statusCode int) {
+	if statusCode < 100 || statusCode >= 200 {
+		w.ensure()
+	}
+	w.ResponseWriter.WriteHeader(statusCode)
+}
+
+func (w *idHeaderWriter) Write(p []byte) (int, error) {
+	w.ensure()
+	return w.ResponseWriter.Write(p)
+}
+
+// Flush implements http.Flusher
+func (w *idHeaderWriter) Flush() {
+	w.ensure()
+	if f, ok := w.ResponseWriter.(http.Flusher); ok {
+		f.Flush()
+	}
+}
+
+// Hijack implements http.Hijacker (WebSocket upgrades)
+func (w *idHeaderWriter) Hijack() (net.Conn, *bufio.ReadWriter, error) {
+	h, ok := w.ResponseWriter.(http.Hijacker)
+	if !ok {
+		return nil, nil, fmt.Errorf("response writer does not implement http.Hijacker")
+	}
+	return h.Hijack()
+}
+
+// Unwrap exposes the underlying ResponseWriter to http.ResponseController
+func (w *idHeaderWriter) Unwrap() http.ResponseWriter {
+	return w.ResponseWriter
 }
 
 func handleRequestID(r *http.Request, w http.ResponseWriter, cfg config.LoggingConfig, header string) string {
